@@ -92,6 +92,41 @@ func deepAlphabet() []string {
 }
 
 // probe batches: "W:<n>:<v>" = series 1, timestamps 1..n, version v; "w1:<t>:<v>" = one row of series 1.
+// triple alphabet: batches of 3 (and 4) points that carry one (series,ts) twice (or three times) together with a companion
+// point p, so that the duplicate is NOT on the first timestamp / first series of the batch:
+//   - for every key K, every duplicate kind (versions (1,2), (1,3), (2,3), equal versions with two payloads) and every
+//     companion p in {same series at the other timestamp, other series at t1, other series at t2}: the batch
+//     [q_low, p, q_high] (unsorted on purpose). Quick: p has version 2; thorough: p in all three versions.
+//   - for every key K: [q2, q1, q3] (three versions of one point) and [q2, p, q1, q3] with p in the same series.
+//   - the 12 singles, so that a second write can compete with what the triple left behind.
+func tripleAlphabet(thorough bool) []string {
+	var ops []string
+	for i := 0; i < 12; i++ {
+		ops = append(ops, fmt.Sprintf("w:%d", i))
+	}
+	pvs := []int{1}
+	if thorough {
+		pvs = []int{0, 1, 2}
+	}
+	for k := 0; k < 4; k++ {
+		base := 3 * k
+		// key k = 2*(series-1) + timestamp index; point index = 3*k + (version-1)
+		sameSeriesOther := 3 * (k ^ 1)
+		otherT1 := 3 * ((k ^ 2) &^ 1)
+		otherT2 := 3 * ((k ^ 2) | 1)
+		for _, dup := range [][2]int{{0, 1}, {0, 2}, {1, 2}, {1, 1}} {
+			for _, pk := range []int{sameSeriesOther, otherT1, otherT2} {
+				for _, pv := range pvs {
+					ops = append(ops, fmt.Sprintf("w:%d,%d,%d", base+dup[0], pk+pv, base+dup[1]))
+				}
+			}
+		}
+		ops = append(ops, fmt.Sprintf("w:%d,%d,%d", base+1, base, base+2))
+		ops = append(ops, fmt.Sprintf("w:%d,%d,%d,%d", base+1, sameSeriesOther+1, base, base+2))
+	}
+	return ops
+}
+
 func rowsOfWrite(op string) []measure.VRow {
 	var rows []measure.VRow
 	if strings.HasPrefix(op, "W:") || strings.HasPrefix(op, "w1:") {
@@ -265,10 +300,12 @@ func panicKey(op string, r any) string {
 	return "panic in " + kind + ": " + numRe.ReplaceAllString(s, "#")
 }
 
-var queryVariants = []struct {
+type queryVariant struct {
 	name string
 	q    measure.VQuery
-}{
+}
+
+var queryVariants = []queryVariant{
 	{"pull/ts-asc", measure.VQuery{Sids: []uint64{1, 2}, Min: 0, Max: 1 << 40, Mode: 0, Schema: 1}},
 	{"pull/ts-desc", measure.VQuery{Sids: []uint64{1, 2}, Min: 0, Max: 1 << 40, Mode: 1, Schema: 1}},
 	{"pull/by-series", measure.VQuery{Sids: []uint64{1, 2}, Min: 0, Max: 1 << 40, Mode: 2, Schema: 1}},
@@ -278,6 +315,67 @@ var queryVariants = []struct {
 	{"batch/by-series", measure.VQuery{Sids: []uint64{1, 2}, Min: 0, Max: 1 << 40, Mode: 2, Batch: true, Schema: 1}},
 	{"pull/range-t1", measure.VQuery{Sids: []uint64{1, 2}, Min: t1, Max: t1, Mode: 0, Schema: 1}},
 	{"pull/range-t2", measure.VQuery{Sids: []uint64{1, 2}, Min: t2, Max: t2, Mode: 0, Schema: 1}},
+	{"pull/series1", measure.VQuery{Sids: []uint64{1}, Min: 0, Max: 1 << 40, Mode: 0, Schema: 1}},
+	{"pull/series2", measure.VQuery{Sids: []uint64{2}, Min: 0, Max: 1 << 40, Mode: 0, Schema: 1}},
+	{"batch/series1", measure.VQuery{Sids: []uint64{1}, Min: 0, Max: 1 << 40, Mode: 0, Batch: true, Schema: 1}},
+	{"batch/series2", measure.VQuery{Sids: []uint64{2}, Min: 0, Max: 1 << 40, Mode: 0, Batch: true, Schema: 1}},
+}
+
+type exp struct {
+	maxV     int64
+	payloads map[int64]bool
+	n        int
+}
+
+func (e *exp) add(v, p int64) {
+	e.n++
+	if e.n == 1 || v > e.maxV {
+		e.maxV = v
+		e.payloads = map[int64]bool{}
+	}
+	if v == e.maxV {
+		e.payloads[p] = true
+	}
+}
+
+// partQueries: for every part of the snapshot, scan that part alone (all series, and each series on its own = one block):
+// what a query sees whose time range prunes the other parts. The reference is the content of that part.
+func partQueries(dump []measure.VPart) (qs []queryVariant, wants []map[kkey]*exp) {
+	nth := map[string]int{}
+	for _, p := range dump {
+		kind := "file"
+		if p.Mem {
+			kind = "mem"
+		}
+		nth[kind]++
+		want := map[kkey]*exp{}
+		for _, r := range p.Rows {
+			k := kkey{r.S, r.T}
+			if want[k] == nil {
+				want[k] = &exp{}
+			}
+			want[k].add(r.V, rawPayloadOf(r.F))
+		}
+		for _, v := range []struct {
+			n    string
+			sids []uint64
+			b    bool
+		}{{"pull/all", []uint64{1, 2}, false}, {"pull/series1", []uint64{1}, false}, {"pull/series2", []uint64{2}, false},
+			{"batch/series1", []uint64{1}, true}, {"batch/series2", []uint64{2}, true}} {
+			qs = append(qs, queryVariant{fmt.Sprintf("single-%s-part/%s", kind, v.n),
+				measure.VQuery{Sids: v.sids, Min: 0, Max: 1 << 40, Mode: 0, Schema: 1, Batch: v.b, Part: p.ID}})
+			wants = append(wants, want)
+		}
+	}
+	return
+}
+
+func rawPayloadOf(f string) int64 {
+	n, err := strconv.ParseInt(strings.TrimPrefix(f, "int64:"), 10, 64)
+	if err != nil {
+		return -1
+	}
+	return n
 }
 
 // execute replays h on a fresh table in dir, evaluates the oracle in the final state and reads back the canonical state.
@@ -299,11 +397,6 @@ func execute(dir string, h []string) (res result) {
 		_ = os.RemoveAll(dir)
 	}()
 	t = measure.VOpen(dir, series)
-	type exp struct {
-		maxV     int64
-		payloads map[int64]bool
-		n        int
-	}
 	want := map[kkey]*exp{}
 	for _, op := range h {
 		cur = op
@@ -312,19 +405,10 @@ func execute(dir string, h []string) (res result) {
 			res.info.Writes++
 			for _, r := range rowsOfWrite(op) {
 				k := kkey{r.S, r.T}
-				e := want[k]
-				if e == nil {
-					e = &exp{maxV: r.V, payloads: map[int64]bool{}}
-					want[k] = e
+				if want[k] == nil {
+					want[k] = &exp{}
 				}
-				e.n++
-				if r.V > e.maxV {
-					e.maxV = r.V
-					e.payloads = map[int64]bool{}
-				}
-				if r.V == e.maxV {
-					e.payloads[r.P] = true
-				}
+				want[k].add(r.V, r.P)
 			}
 		}
 	}
@@ -363,7 +447,21 @@ func execute(dir string, h []string) (res result) {
 	}
 	res.observed = map[string][]measure.VOut{}
 	outc := map[string]bool{}
-	for _, qv := range queryVariants {
+	pq, pwants := partQueries(res.dump)
+	allQ := append(append([]queryVariant(nil), queryVariants...), pq...)
+	for qi, qv := range allQ {
+		want := want
+		if qi >= len(queryVariants) {
+			want = pwants[qi-len(queryVariants)]
+		}
+		inQuery := func(k kkey) bool {
+			for _, s := range qv.q.Sids {
+				if s == k.s {
+					return k.t >= qv.q.Min && k.t <= qv.q.Max
+				}
+			}
+			return false
+		}
 		cur = "query " + qv.name
 		rows, err := t.Query(qv.q)
 		res.queries++
@@ -377,7 +475,7 @@ func execute(dir string, h []string) (res result) {
 			k := kkey{r.S, r.T}
 			got[k]++
 			e := want[k]
-			inRange := r.T >= qv.q.Min && r.T <= qv.q.Max
+			inRange := inQuery(k)
 			switch {
 			case e == nil || !inRange:
 				res.viol = append(res.viol, opsearch.Viol{Key: qv.name + ": row for a key never written / outside the range", Detail: r})
@@ -398,14 +496,14 @@ func execute(dir string, h []string) (res result) {
 				res.viol = append(res.viol, opsearch.Viol{Key: fmt.Sprintf("%s: payload is not one written with the winning version; key stored in parts %s", qv.name, layout(k)),
 					Detail: map[string]any{"row": r, "rows": clip(rows)}})
 			}
-			if e != nil {
+			if e != nil && qv.q.Part == 0 {
 				if e.n > 1 {
 					outc[fmt.Sprintf("v%d-of-%d@%s", r.V, e.n, layout(k))] = true
 				}
 			}
 		}
 		for k := range want {
-			if k.t >= qv.q.Min && k.t <= qv.q.Max && got[k] == 0 {
+			if inQuery(k) && got[k] == 0 {
 				res.viol = append(res.viol, opsearch.Viol{Key: fmt.Sprintf("%s: written key missing from the result; key stored in parts %s", qv.name, layout(k)),
 					Detail: map[string]any{"series": k.s, "ts": k.t, "rows": clip(rows)}})
 			}
@@ -499,6 +597,7 @@ func main() {
 		deepWrites = 4
 	}
 	deep := &model{name: "deep", alphabet: deepAlphabet(), maxWrites: deepWrites, base: base}
+	triple := &model{name: "triple", alphabet: tripleAlphabet(thorough), maxWrites: 2, base: base}
 	var r *ev.Run
 	if !isWorker {
 		r = ev.New("C02", "model_checking")
@@ -509,6 +608,10 @@ func main() {
 		fmt.Printf("C02 deep search: %d write ops, <=%d writes, depth %d\n", len(deep.alphabet), deepWrites, depth)
 	}
 	sd := opsearch.Run(opsearch.Config{Name: "c02deep", MaxDepth: depth, Workers: 16, Cleanup: func() { os.RemoveAll(base) }}, deep.expand)
+	if !isWorker {
+		fmt.Printf("C02 triple search: %d write ops (3- and 4-point batches with an in-batch duplicate + singles), <=2 writes, depth 4\n", len(triple.alphabet))
+	}
+	st := opsearch.Run(opsearch.Config{Name: "c02triple", MaxDepth: 4, Workers: 16, Cleanup: func() { os.RemoveAll(base) }}, triple.expand)
 	if isWorker {
 		os.RemoveAll(base)
 		return
@@ -528,19 +631,21 @@ func main() {
 	for _, sv := range []struct {
 		n string
 		s opsearch.Stats
-	}{{"wide", sw}, {"deep", sd}} {
+	}{{"wide", sw}, {"deep", sd}, {"triple", st}} {
 		for _, v := range sv.s.Violations {
 			r.Violation(v.Key, artefact{Search: sv.n, Hist: v.Hist, Detail: v.Detail})
 		}
 	}
-	r.Set("states", sw.States+sd.States)
-	r.Set("transitions", sw.Transitions+sd.Transitions)
-	r.Set("traces_validated_against_impl", sw.Transitions+sd.Transitions+len(probes))
-	r.Set("queries_per_state", len(queryVariants))
-	r.Set("query_evaluations", (sw.Transitions+sd.Transitions)*len(queryVariants))
+	nTrans := sw.Transitions + sd.Transitions + st.Transitions
+	r.Set("states", sw.States+sd.States+st.States)
+	r.Set("transitions", nTrans)
+	r.Set("traces_validated_against_impl", nTrans+len(probes))
+	r.Set("queries_per_state", fmt.Sprintf("%d over the whole snapshot + 5 per part of the snapshot (that part scanned alone)", len(queryVariants)))
+	r.Set("query_evaluations_whole_snapshot", nTrans*len(queryVariants))
 	r.Set("search_wide", sw)
 	r.Set("search_deep", sd)
-	r.Set("nontrivial_transitions", sw.Nontrivial+sd.Nontrivial)
+	r.Set("search_triple", st)
+	r.Set("nontrivial_transitions", sw.Nontrivial+sd.Nontrivial+st.Nontrivial)
 	oc := map[string]bool{}
 	for k := range sw.Outcomes {
 		oc[k] = true
@@ -548,23 +653,32 @@ func main() {
 	for k := range sd.Outcomes {
 		oc[k] = true
 	}
+	for k := range st.Outcomes {
+		oc[k] = true
+	}
 	r.Set("distinct_outcomes", len(oc))
 	r.Set("rule", "a transition is non-trivial when its history wrote some (series,ts) more than once; an outcome class = for every contended key, which version was returned out of how many writes and in which kinds of parts (mem/file) its rows lived at query time")
 	r.Set("bounds", map[string]any{
-		"depth":         depth,
-		"wide_alphabet": fmt.Sprintf("%d write ops = every batch of <=2 of the 12 points {s1,s2}x{t1,t2}x{v1,v2,v3} (same-key pairs in both input orders, equal-version twins with different payloads); <=2 writes per history", len(wide.alphabet)),
-		"deep_alphabet": fmt.Sprintf("%d write ops = every batch of <=2 of 7 points (s1 x {t1,t2} x {v1,v2,v3}, (s2,t1,v2)); <=%d writes per history", len(deep.alphabet), deepWrites),
-		"maintenance":   "flush (all memory parts), merge of every subset (>=2) of file parts, merge of all memory parts (flusher path)",
+		"depth":           depth,
+		"wide_alphabet":   fmt.Sprintf("%d write ops = every batch of <=2 of the 12 points {s1,s2}x{t1,t2}x{v1,v2,v3} (same-key pairs in both input orders, equal-version twins with different payloads); <=2 writes per history", len(wide.alphabet)),
+		"deep_alphabet":   fmt.Sprintf("%d write ops = every batch of <=2 of 7 points (s1 x {t1,t2} x {v1,v2,v3}, (s2,t1,v2)); <=%d writes per history", len(deep.alphabet), deepWrites),
+		"triple_alphabet": fmt.Sprintf("%d write ops = batches [q_low, p, q_high] with q_low,q_high on one (series,ts) (versions (1,2),(1,3),(2,3) or equal versions with two payloads) and a companion p (same series other timestamp / other series t1 / other series t2; version 2 in quick, all versions in thorough), [q2,q1,q3], [q2,p,q1,q3], and the 12 singles; <=2 writes per history, depth 4", len(triple.alphabet)),
+		"maintenance":     "flush (all memory parts), merge of every subset (>=2) of file parts, merge of all memory parts (flusher path)",
 	})
-	for _, h := range sw.SampleHistories {
-		r.Sample(map[string]any{"search": "wide", "history": h})
-	}
-	for _, h := range sd.SampleHistories {
-		r.Sample(map[string]any{"search": "deep", "history": h})
+	for _, sv := range []struct {
+		n string
+		s opsearch.Stats
+		k int
+	}{{"wide", sw, 2}, {"triple", st, 3}, {"deep", sd, 3}} {
+		for i, h := range sv.s.SampleHistories {
+			if i > 0 && i <= sv.k {
+				r.Sample(map[string]any{"search": sv.n, "history": h})
+			}
+		}
 	}
 	r.Assume("states with equal multisets of parts (kind + logical rows) have equal futures: part ids, directory names and the order of parts in the snapshot are not part of the state")
 	r.Assume("the step functions called by the introducer/flusher/merger loops are driven one at a time (no concurrency; C05 covers snapshots under concurrency)")
-	fmt.Printf("C02: states=%d transitions=%d nontrivial=%d distinct_outcomes=%d\n", sw.States+sd.States, sw.Transitions+sd.Transitions, sw.Nontrivial+sd.Nontrivial, len(oc))
+	fmt.Printf("C02: states=%d transitions=%d nontrivial=%d distinct_outcomes=%d\n", sw.States+sd.States+st.States, nTrans, sw.Nontrivial+sd.Nontrivial+st.Nontrivial, len(oc))
 	os.RemoveAll(base) // Finish exits the process, deferred calls do not run
 	r.Finish()
 }
@@ -619,8 +733,13 @@ func replay(p string) {
 	for _, p := range res.dump {
 		fmt.Printf("  part %d mem=%v rows=%s\n", p.ID, p.Mem, short(p.Rows))
 	}
-	for _, qv := range queryVariants {
-		fmt.Printf("  %-20s %s\n", qv.name, short(res.observed[qv.name]))
+	var names []string
+	for n := range res.observed {
+		names = append(names, n)
+	}
+	sort.Strings(names)
+	for _, n := range names {
+		fmt.Printf("  %-32s %s\n", n, short(res.observed[n]))
 	}
 	hit := false
 	for _, v := range res.viol {
